@@ -46,6 +46,7 @@ Definition bad_coord (c : coord) : Prop :=
   \/ ~ (xle (cl c) (cpl c) = true /\ xlt (cpl c) (cpu c) = true /\ xle (cpu c) (cu c) = true)
                                                                          (* not lb <= plb < pub <= ub *)
   \/ xlt (cx c) (cl c) = true \/ xlt (cu c) (cx c) = true               (* x0 outside the hard bounds *)
+  \/ xisinf (cx c) = true                                                (* ... an infinite x0 is not a point *)
   \/ xle (ub_eff (cl c) (cu c)) (lb_eff (cl c) (cu c)) = true           (* identical / indistinguishable:
                                                                             no room between the effective bounds *)
   \/ xisfinite (cl c) <> xisfinite (cu c).                               (* bounded on one side only *)
@@ -61,7 +62,7 @@ Definition invalid (d : defn) : Prop :=
 (* the property quantifies over D = 1..3; D = 0 (an empty x0) is outside it *)
 Definition nonempty (d : defn) : Prop := dim_of d <> Some 0%nat.
 
-(* ---- the three classes of definitions on which the code departs from the list ---- *)
+(* ---- the classes of definitions on which the code departs from the list ---- *)
 (* a non-zero bound of magnitude <= realmin: the code's special case for |bound| <= realmin replaces
    lb + 1e-3*range by 1e-3*range, which is only right for a bound equal to 0 *)
 Definition denormal_like (a : xq) : bool := xabs_le a realmin && negb (xeq a (XFin 0)).
@@ -71,11 +72,11 @@ Definition regular_coord (c : coord) : Prop :=
   (* the plausible box is not entirely inside one of the two 0.1% margins of the hard box *)
   /\ xlt (cpl c) (ub_eff (cl c) (cu c)) = true /\ xlt (lb_eff (cl c) (cu c)) (cpu c) = true.
 
-(* x0 is a point (every coordinate finite) or is not given (absent, or NaN in every coordinate) *)
+(* x0 has no NaN coordinate, or is not given (absent, or NaN in every coordinate) *)
 Definition x0_regular (d : defn) : Prop :=
   match d_x0 d with
   | None => True
-  | Some x => Forall (fun a => xisfinite a = true) x \/ Forall (fun a => a = XNaN) x
+  | Some x => Forall (fun a => xisnan a = false) x \/ Forall (fun a => a = XNaN) x
   end.
 
 Definition regular (d : defn) : Prop :=
